@@ -157,8 +157,19 @@ def r2(run: Run, src):
     body = wt.node.body
     calls_translate = [i for i, s in enumerate(body) if isinstance(s, ast.Expr) and ast.unparse(s.value) == 'self._translate()']
     writes = [n for n in ast.walk(wt.node) if isinstance(n, ast.Call) and isinstance(n.func, ast.Attribute) and n.func.attr == 'write']
-    ok = len(calls_translate) == 1 and len(writes) == 1 and ast.unparse(writes[0].args[0]) == 'self._translation' and \
-        writes[0].lineno > body[calls_translate[0]].lineno
+    ok = False
+    if len(writes) == 1 and writes[0].args:
+        w = writes[0].args[0]
+        # follow one local binding: text = self.get_translation()
+        if isinstance(w, ast.Name):
+            binds = [st for st in body if isinstance(st, ast.Assign) and any(isinstance(t, ast.Name) and t.id == w.id for t in st.targets)]
+            if len(binds) == 1 and binds[0].lineno < writes[0].lineno:
+                w = binds[0].value
+        wtxt = ast.unparse(w)
+        if wtxt in ('self.get_translation()', 'self._translate()._translation'):
+            ok = True                 # the up-to-date text, obtained the way get_translation obtains it
+        elif wtxt == 'self._translation':
+            ok = len(calls_translate) == 1 and writes[0].lineno > body[calls_translate[0]].lineno
     run.check(ok, 'C09.R2', 'Parser.write_translation/content', 'written-text',
               f'write_translation writes `{ast.unparse(writes[0].args[0])[:60] if writes else "?"}`; it must write exactly the text '
               f'get_translation returns, after bringing it up to date', fact='writes self._translation after _translate()',
